@@ -12,11 +12,13 @@ import (
 	"bufio"
 	"encoding/binary"
 	"encoding/json"
+	"errors"
 	"fmt"
 	"io"
 	"net"
 	"os"
 	"runtime"
+	"strings"
 	"sync"
 	"testing"
 	"time"
@@ -200,7 +202,12 @@ func (s *vfC04Sess) close() {
 func vfC04SessView(s *vfC04Sess, c *vfC04Case, mode string, skip bool) vfC04M {
 	v := vfC04EmptyView(c.ID, mode)
 	s.node.set(vfC04I2B(c.Prep), vfC04I2B(c.Bytes))
+	// a SELECT is prepared first (the node answers PREPARE with c.Prep); anything else goes
+	// out as a plain QUERY (used for the ERROR responses)
 	stmt := fmt.Sprintf("SELECT vf_c04_%d_%s", c.ID, mode)
+	if len(c.Prep) == 0 {
+		stmt = fmt.Sprintf("LIST vf_c04_%d_%s", c.ID, mode)
+	}
 	tracer := &vfC04Tracer{}
 	open := func() (*Iter, *framer, error) {
 		q := s.sess.Query(stmt).Trace(tracer).PageState(nil)
@@ -249,6 +256,53 @@ func vfC04SessView(s *vfC04Sess, c *vfC04Case, mode string, skip bool) vfC04M {
 			}
 		}
 		v["f"] = f
+	}()
+	return v
+}
+
+var vfC04ErrStop = errors.New("vfC04: binding stops here")
+
+// vfC04PrepView: the PREPARED response as an application sees it - the QueryInfo handed to
+// a binding function (id, bind columns, result columns, partition key indexes).
+func vfC04PrepView(s *vfC04Sess, c *vfC04Case, mode string) vfC04M {
+	v := vfC04EmptyView(c.ID, mode)
+	s.node.set(vfC04I2B(c.Bytes), nil)
+	stmt := fmt.Sprintf("SELECT vf_c04_%d_%s", c.ID, mode)
+	tracer := &vfC04Tracer{}
+	func() {
+		defer func() {
+			if r := recover(); r != nil {
+				v["panic"] = vfC04Ascii(fmt.Sprint(r))
+			}
+		}()
+		var got *QueryInfo
+		q := s.sess.Bind(stmt, func(info *QueryInfo) ([]interface{}, error) {
+			got = info
+			return nil, vfC04ErrStop
+		}).Trace(tracer)
+		err := q.Iter().Close()
+		tracer.mu.Lock()
+		v["trace"] = vfC04B2I(tracer.id)
+		tracer.mu.Unlock()
+		if got == nil {
+			if err != nil {
+				v["perr"] = vfC04Ascii(err.Error())
+			} else {
+				v["perr"] = "binding function not called"
+			}
+			return
+		}
+		if err != vfC04ErrStop {
+			v["perr"] = vfC04Ascii(fmt.Sprint("unexpected result after binding: ", err))
+			return
+		}
+		pk := []int{}
+		pk = append(pk, got.PKeyColumns...)
+		mv := func(cols []ColumnInfo) vfC04M {
+			return vfC04M{"flags": -1, "colcount": -1, "paging": []int{}, "cols": vfC04ColsView(cols)}
+		}
+		v["kind"] = "prepared"
+		v["f"] = vfC04M{"id": vfC04B2I(got.Id), "pk": pk, "req": mv(got.Args), "gks": []int{}, "gtable": []int{}, "res": mv(got.Rval)}
 	}()
 	return v
 }
@@ -321,8 +375,8 @@ func TestVfC04Run(t *testing.T) {
 			switch mode {
 			case "plain", "snappy":
 				fjobs[i%nfw] = append(fjobs[i%nfw], job{c, mode})
-			case "sess-full", "sess-skip", "sess-full-z", "sess-skip-z":
-				comp := mode == "sess-full-z" || mode == "sess-skip-z"
+			case "sess-full", "sess-skip", "sess-full-z", "sess-skip-z", "sess-prep", "sess-prep-z":
+				comp := strings.HasSuffix(mode, "-z")
 				key := fmt.Sprintf("%d/%v", c.V, comp)
 				sjobs[key] = append(sjobs[key], job{c, mode})
 			default:
@@ -344,7 +398,7 @@ func TestVfC04Run(t *testing.T) {
 		wg.Add(1)
 		go func(key string, js []job) {
 			defer wg.Done()
-			comp := js[0].mode == "sess-full-z" || js[0].mode == "sess-skip-z"
+			comp := strings.HasSuffix(js[0].mode, "-z")
 			s, err := vfC04NewSess(js[0].c.V, comp)
 			if err != nil {
 				omu.Lock()
@@ -355,7 +409,11 @@ func TestVfC04Run(t *testing.T) {
 			}
 			defer s.close()
 			for _, j := range js {
-				emit(vfC04SessView(s, j.c, j.mode, j.mode == "sess-skip" || j.mode == "sess-skip-z"))
+				if strings.HasPrefix(j.mode, "sess-prep") {
+					emit(vfC04PrepView(s, j.c, j.mode))
+				} else {
+					emit(vfC04SessView(s, j.c, j.mode, strings.HasPrefix(j.mode, "sess-skip")))
+				}
 			}
 		}(key, js)
 	}
